@@ -10,6 +10,7 @@ EXPLANATION = (
     "(R4) the parallel merge sorts by sort_key and rejects equal-key/different-op before any Ok return; (R6) no "
     "ambient nondeterminism source is reachable from the commit path. Equality of the two sort orders on all keys and "
     "post-state = pre-state + accepted effects are NOT decided."
+    ' Round 2: every scheduler field that can hold candidates or footprints is a map keyed by TxId (no cross-transaction candidate state).'
 )
 ASSUMPTIONS = ["sort_unstable_by / BTreeMap are correct", "dyn TelemetrySink and rule fn pointers are opaque host code"]
 FLOOR = 35
